@@ -108,6 +108,13 @@ theorem subOK_of {X : Ctx} (H : X.OK) (q : QElt) (hq : EltOK X q) :
     exact ⟨hlt, hle, ⟨qo.s, Nat.le_refl _, hlt, keptAt_replicate _ _ (by omega)⟩,
       fun t h3 h4 => (hg.pre t h3 h4).2, fun t h3 h4 => (hg.pre t h3 h4).1⟩
 
+/-- number of keys of the range of a queue element -/
+def eltSize (X : Ctx) (q : QElt) : Nat := (subOf X q).e - (subOf X q).s
+
+/-- number of keys still to be turned into leaves: the keys of the unprocessed queue elements -/
+def pend (X : Ctx) (c : Conv) (newid : Nat) : Nat :=
+  ((c.queue.toList.drop newid).map (eltSize X)).sum
+
 /-! ### the invariant of the conversion loop -/
 
 structure CInv (X : Ctx) (newid : Nat) (c : Conv) (lk : Array Nat) : Prop where
@@ -122,6 +129,7 @@ structure CInv (X : Ctx) (newid : Nat) (c : Conv) (lk : Array Nat) : Prop where
   lo : (c.queue.toList.filter (·.leafOnly)).length ≤ procCnt c newid
   lks : lk.size = c.leaves.size ∧ c.leaves.toList = lk.toList.map (fun k => X.vals.getD k [])
   lcnt : c.leaves.size = leavesBefore c.nodes newid
+  cnt : lk.size + pend X c newid = X.keys.length
   node : ∀ j, j < newid → ∃ q nd, c.queue[j]? = some q ∧ c.nodes[j]? = some nd ∧
     NodeOK X.keys (List.replicate X.keys.length true) {} (c.queue.map (subOf X)) lk j
       (subOf X q) (fixNode (bfsFC c.nodes j) nd)
@@ -188,7 +196,7 @@ theorem cinv_leaf {X : Ctx} (H : X.OK) {newid : Nat} {c : Conv} {lk : Array Nat}
   have hpc := procCnt_succ c newid q hq
   have hpc' : procCnt (leafUpd c (X.vals.getD (X.oq.getD q.oldid default).s [])) (newid + 1)
       = procCnt c (newid + 1) := rfl
-  refine ⟨?_, ?_, hinv.root, hinv.elts, hinv.ids, ?_, hinv.nle, ?_, ?_, ?_, ?_, ?_, ?_⟩
+  refine ⟨?_, ?_, hinv.root, hinv.elts, hinv.ids, ?_, hinv.nle, ?_, ?_, ?_, ?_, ?_, ?_, ?_⟩
   · show (c.nodes.push _).size = newid + 1
     rw [Array.size_push, hns]
   · show newid + 1 ≤ c.queue.size
@@ -224,6 +232,19 @@ theorem cinv_leaf {X : Ctx} (H : X.OK) {newid : Nat} {c : Conv} {lk : Array Nat}
   · -- lcnt
     show (c.leaves.push _).size = leavesBefore (c.nodes.push _) (newid + 1)
     rw [Array.size_push, ← hns, leavesBefore_push_size, hns, ← hinv.lcnt]; rfl
+  · -- cnt
+    show (lk.push _).size + ((c.queue.toList.drop (newid + 1)).map (eltSize X)).sum = _
+    have hdrop : c.queue.toList.drop newid = q :: c.queue.toList.drop (newid + 1) := by
+      have hl : newid < c.queue.toList.length := by simpa using hlt
+      rw [List.drop_eq_getElem_cons hl]
+      congr 1
+      have := (Array.getElem?_eq_some_iff.mp hq).2
+      simpa using this
+    have hc := hinv.cnt
+    unfold pend at hc
+    rw [hdrop, List.map_cons, List.sum_cons] at hc
+    have hsz : eltSize X q = 1 := by unfold eltSize; have := hsub.1; omega
+    rw [Array.size_push]; omega
   · -- node
     intro j hj
     show ∃ q' nd, c.queue[j]? = some q' ∧ (c.nodes.push _)[j]? = some nd ∧ _
@@ -391,7 +412,7 @@ theorem cinv_inner {X : Ctx} (H : X.OK) {newid : Nat} {c : Conv} {lk : Array Nat
     unfold procCnt at this ⊢
     rw [this, hnl]; rfl
   have hklen := newKids_length X q c.nextOldID
-  refine ⟨?_, ?_, ?_, ?_, ?_, ?_, hnle, ?_, ?_, hinv.lks, ?_, ?_, ?_⟩
+  refine ⟨?_, ?_, ?_, ?_, ?_, ?_, hnle, ?_, ?_, hinv.lks, ?_, ?_, ?_, ?_⟩
   · show (c.nodes.push _).size = newid + 1
     rw [Array.size_push, hns]
   · show newid + 1 ≤ (c.queue ++ _).size
@@ -453,6 +474,66 @@ theorem cinv_inner {X : Ctx} (H : X.OK) {newid : Nat} {c : Conv} {lk : Array Nat
   · -- lcnt
     show c.leaves.size = leavesBefore (c.nodes.push _) (newid + 1)
     rw [← hns, leavesBefore_push_size, hns, ← hinv.lcnt]; rfl
+  · -- cnt
+    show lk.size + (((c.queue ++ (newKids X q c.nextOldID).toArray).toList.drop (newid + 1)).map
+      (eltSize X)).sum = _
+    have e : (c.queue ++ (newKids X q c.nextOldID).toArray).toList
+        = c.queue.toList ++ newKids X q c.nextOldID := by simp
+    rw [e, List.drop_append_of_le_length (by simp only [Array.length_toList]; omega),
+      List.map_append, List.sum_append]
+    have hdrop : c.queue.toList.drop newid = q :: c.queue.toList.drop (newid + 1) := by
+      have hl : newid < c.queue.toList.length := by simpa using hlt
+      rw [List.drop_eq_getElem_cons hl]
+      congr 1
+      have := (Array.getElem?_eq_some_iff.mp hq).2
+      simpa using this
+    have hc := hinv.cnt
+    unfold pend at hc
+    rw [hdrop, List.map_cons, List.sum_cons] at hc
+    have hq1 : eltSize X q = qo.e - qo.s := by unfold eltSize; rw [hsubq]
+    -- the ranges of the children partition the range of the node
+    have hkidsz : ((newKids X q c.nextOldID).map (eltSize X)).sum = qo.e - qo.s := by
+      unfold newKids
+      rw [hqo, List.map_append, List.sum_append]
+      have h1 : ((if endsAt X.kn qo = true
+          then [({ oldid := q.oldid, step := 0, leafOnly := true } : QElt)] else []).map
+          (eltSize X)).sum = (if endsAt X.kn qo = true then 1 else 0) := by
+        cases he : endsAt X.kn qo with
+        | false => rfl
+        | true =>
+          simp only [if_true, List.map_cons, List.map_nil, List.sum_cons, List.sum_nil]
+          unfold eltSize subOf
+          simp
+      have h2 : ((kidElts X.nodes c.nextOldID (runsOf X.kn qo).length).map (eltSize X))
+          = (runsOf X.kn qo).map runSize := by
+        apply List.ext_getElem
+        · simp [kidElts_length]
+        · intro k hk1 hk2
+          have hk : k < (runsOf X.kn qo).length := by simpa using hk2
+          have hke := kidElts_getElem? X.nodes c.nextOldID (runsOf X.kn qo).length k hk
+          rw [List.getElem_map, List.getElem_map]
+          have hge : (kidElts X.nodes c.nextOldID (runsOf X.kn qo).length)[k]'(by
+              simpa [kidElts_length] using hk) = _ :=
+            (List.getElem?_eq_some_iff.mp hke).2
+          rw [hge]
+          unfold eltSize subOf
+          simp only [Bool.false_eq_true, if_false]
+          have hgd : X.oq.getD (c.nextOldID + k) default
+              = kidOfRun (brPos X.kn qo) ((runsOf X.kn qo)[k]) := by
+            rw [Array.getD_eq_getD_getElem?, hkids k hk]; rfl
+          rw [hgd]
+          rfl
+      have h3 := (LegacyWrite.groupRuns_spec (nibAt X.kn (brPos X.kn qo)) qo.e
+        (qo.e - restStart X.kn qo) (restStart X.kn qo) (Nat.le_of_lt B.rest_lt)
+        (Nat.le_refl _)).2.1
+      rw [h1, h2]
+      show _ + ((runsOf X.kn qo).map runSize).sum = _
+      unfold runsOf
+      rw [h3]
+      have := B.rest_lt
+      unfold restStart at this ⊢
+      cases endsAt X.kn qo <;> simp at this ⊢ <;> omega
+    omega
   · -- node
     intro j hj
     show ∃ q' nd, (c.queue ++ _)[j]? = some q' ∧ (c.nodes.push _)[j]? = some nd ∧ _
